@@ -155,10 +155,7 @@ def run_task(task):
         for n in range(task['lo'], task['hi']):
             for blocked in (False, True):
                 for api in APIS:
-                    codings = ['pos']
-                    if api == 'class_close':
-                        codings = CODINGS
-                    for coding in codings:
+                    for coding in CODINGS:
                         case = {'lens': [n], 'coding': coding, 'blocked': blocked, 'api': api, 'seed': seed}
                         if n == task['lo'] and not blocked and coding == 'pos' and api == 'class_close':
                             acc.sample(case)
